@@ -215,6 +215,66 @@ def timezones(ctx):
                 return
 
 
+
+def dc_clock_skew(ctx):
+    """the DC's clock and the local clock on opposite sides of an interval boundary: a protect call that goes to the DC gets a seed key for
+    the DC's interval; a LATER protect call on the same cache, answered from the cache, still names the interval of the LOCAL clock — nothing
+    learned from the DC's reply may shift it (DC ahead / behind, L2 / L1 / L0 boundaries, sync and async)"""
+    import asyncio
+    import dpapi_ng, dpapi_ng._client as c
+    import gen
+    from dpapi_ng._blob import DPAPINGBlob
+    sid = "S-1-5-21-1-2-3-1103"
+    old = (c.time, c._sync_get_key, c._async_get_key)
+    try:
+        for (local, dcpos) in (((361, 4, 6), (361, 4, 7)), ((361, 4, 31), (361, 5, 0)), ((361, 31, 31), (362, 0, 0)), ((361, 4, 7), (361, 4, 7)), ((361, 5, 0), (361, 4, 31))):
+            for use_async in (False, True):
+                env = gen.make_env(l0=dcpos[0], l1=dcpos[1], l2=dcpos[2], l1_key=b"\x11" * 64, l2_key=b"\x22" * 64, root_key_identifier=RK)
+
+                rpc = [0]
+
+                def sgk(*a, **kw):
+                    rpc[0] += 1
+                    return env
+
+                async def agk(*a, **kw):
+                    rpc[0] += 1
+                    return env
+                c._sync_get_key, c._async_get_key = sgk, agk
+                cache = c.KeyCache()
+                # first call: one second before / after the boundary by the local clock, answered by the DC
+                t1 = ticks_to_ns(((local[0] * 32 + local[1]) * 32 + local[2]) * B + B - 10_000_000)
+                c.time = type("T", (), {"time_ns": staticmethod(lambda t1=t1: t1)})
+                try:
+                    asyncio.run(dpapi_ng.async_ncrypt_protect_secret(b"x", sid, server="dc01", cache=cache)) if use_async else dpapi_ng.ncrypt_protect_secret(b"x", sid, server="dc01", cache=cache)
+                except Exception:  # noqa
+                    continue
+                # later calls by the local clock, same interval (half a second before its end) and early in it
+                for t2 in (t1 + 500_000_000, t1 - (B - 20_000_000) * 100 + 0):
+                    want = oracle(t2 // 100 + EPOCH)
+                    c.time = type("T", (), {"time_ns": staticmethod(lambda t2=t2: t2)})
+                    n_rpc = rpc[0]
+                    try:
+                        blob = asyncio.run(dpapi_ng.async_ncrypt_protect_secret(b"y", sid, server="dc01", root_key_identifier=RK, cache=cache)) if use_async else \
+                            dpapi_ng.ncrypt_protect_secret(b"y", sid, server="dc01", root_key_identifier=RK, cache=cache)
+                    except Exception:  # noqa
+                        ctx.count("dc_clock_skew:error")
+                        continue
+                    k = DPAPINGBlob.unpack(blob).key_identifier
+                    ctx.count("dc_clock_skew:blob")
+                    # (a call that went to the DC again names the DC's interval by construction; one answered from the cache names the local one)
+                    if (k.l0, k.l1, k.l2) not in (want, dcpos):
+                        ctx.violation("after a call answered by a DC whose clock differs, a later blob names neither the local clock's interval nor the DC's",
+                                      {"scenario": "dc_clock_skew", "local_interval": list(want), "dc_interval": list(dcpos), "async": use_async, "time_ns": t2}, str((k.l0, k.l1, k.l2)), str(want))
+                        return
+                    if (k.l0, k.l1, k.l2) != want and rpc[0] == n_rpc:
+                        ctx.violation("a blob keyed from the cache (no GetKey call was made) does not name the interval of the local clock",
+                                      {"scenario": "dc_clock_skew", "local_interval": list(want), "dc_interval": list(dcpos), "async": use_async, "time_ns": t2}, str((k.l0, k.l1, k.l2)), str(want))
+                        return
+    finally:
+        c.time, c._sync_get_key, c._async_get_key = old
+
+
 def advancing_clock(ctx):
     """a clock that moves during the call: the key identifier must name the interval of ONE instant the clock showed
     (L0, L1 and L2 taken from different readings can name a key hours or a year in the past)"""
@@ -336,6 +396,7 @@ def run(ctx):
     advancing_clock(ctx)
     unreachable_dc(ctx)
     timezones(ctx)
+    dc_clock_skew(ctx)
     seeded_cache(ctx)
     cache_histories(ctx)
 
@@ -358,6 +419,12 @@ def search(ctx, broken, disagreements):
 
 def replay(ctx, payload):
     v = payload["violation"]
+    if v["input"].get("scenario") == "dc_clock_skew":
+        c2 = type(ctx)(ctx.prop, "quick", ctx.seed)
+        dc_clock_skew(c2)
+        for x in c2.violations:
+            print(" ", x["what"], x["input"], x["observed"])
+        return not c2.violations
     if v["input"].get("scenario") == "timezone":
         c2 = type(ctx)(ctx.prop, "quick", ctx.seed)
         timezones(c2)
